@@ -6,6 +6,7 @@ import (
 	"fmt"
 	"os"
 	"strconv"
+	"sync"
 )
 
 func main() {
@@ -27,6 +28,9 @@ func main() {
 			in = f
 		}
 		r := NewRunner()
+		if k, err := strconv.Atoi(os.Getenv("VERIF_GC_EVERY")); err == nil {
+			r.gcEvery = k
+		}
 		sc := bufio.NewScanner(in)
 		sc.Buffer(make([]byte, 1<<20), 1<<26)
 		out := bufio.NewWriter(os.Stdout)
@@ -36,6 +40,60 @@ func main() {
 				out.WriteString(l)
 				out.WriteByte('\n')
 			}
+		}
+	case "par":
+		// par <outprefix> <ops1> <ops2> ... : run each op file in its own goroutine, concurrently
+		// (one world per goroutine, the documented pattern); write outputs to <outprefix>.<i>
+		files := os.Args[3:]
+		var wg sync.WaitGroup
+		for i, fn := range files {
+			wg.Add(1)
+			go func(i int, fn string) {
+				defer wg.Done()
+				f, err := os.Open(fn)
+				if err != nil {
+					panic(err)
+				}
+				defer f.Close()
+				o, err := os.Create(fmt.Sprintf("%s.%d", os.Args[2], i))
+				if err != nil {
+					panic(err)
+				}
+				defer o.Close()
+				w := bufio.NewWriter(o)
+				defer w.Flush()
+				r := NewRunner()
+				sc := bufio.NewScanner(f)
+				sc.Buffer(make([]byte, 1<<20), 1<<26)
+				for sc.Scan() {
+					for _, l := range r.Exec(sc.Text()) {
+						w.WriteString(l)
+						w.WriteByte('\n')
+					}
+				}
+			}(i, fn)
+		}
+		wg.Wait()
+	case "gcarm":
+		// gcarm <soak|retain|escape> [seconds] [seed]
+		mode := os.Args[2]
+		secs := 2.0
+		if len(os.Args) > 3 {
+			secs, _ = strconv.ParseFloat(os.Args[3], 64)
+		}
+		var seed uint64 = 1
+		if len(os.Args) > 4 {
+			seed, _ = strconv.ParseUint(os.Args[4], 10, 64)
+		}
+		switch mode {
+		case "soak":
+			gcSoak(secs, seed)
+		case "retain":
+			gcRetain()
+		case "escape":
+			gcEscape()
+		default:
+			os.Exit(2)
 		}
 	case "puregen":
 		seed, _ := strconv.ParseUint(os.Args[2], 10, 64)
